@@ -712,6 +712,18 @@ func (g *Gen) op(op string, v *view) []byte {
 		if g.r.Chance(0.12) && !g.tb.Used(g.c.W.Team) {
 			s = g.c.W.Team
 		}
+		// an address whose whole balance is the fee of this very transaction: a vote with no power at all
+		if d.DisputeStatus == disputetypes.Voting && g.jr.Chance(0.12) {
+			for _, pa := range g.c.W.Poor {
+				if !g.tb.Used(pa) && func() bool {
+					b := a.BankKeeper.GetBalance(v.ctx, pa.Addr, Denom).Amount
+					return b.GTE(math.NewInt(DefaultFee)) && b.LTE(math.NewInt(2*DefaultFee))
+				}() {
+					s = pa
+					break
+				}
+			}
+		}
 		if s == nil {
 			return nil
 		}
